@@ -37,8 +37,13 @@ type scen struct {
 	bcs  [][]int // values per broadcasting thread (all distinct)
 	subs []sub
 	// closeAt: -1 no Close; otherwise the Close thread is released as soon as
-	// closeAt Broadcast calls have been issued (0: free from the start).
+	// closeAt Broadcast calls have been issued (0: free from the start); in
+	// strict scenarios: as soon as closeAt Broadcast calls have returned.
 	closeAt int
+	// strict: also claim exactly-once in histories WITH Close, for every value
+	// whose Broadcast call returned before Close was called (see NOTES.md,
+	// "reading of 'while the broadcaster is open'"); own finding key.
+	strict bool
 }
 
 func (s scen) nvals() int {
@@ -69,7 +74,14 @@ func (s scen) name() string {
 	if s.closeAt >= 0 {
 		c = fmt.Sprint("@", s.closeAt)
 	}
-	return fmt.Sprintf("bc=%s subs=%s close=%s", strings.Join(b, "+"), strings.Join(u, ","), c)
+	if s.strict {
+		c = fmt.Sprint("after", s.closeAt, "returned")
+	}
+	pre := ""
+	if s.strict {
+		pre = "strict "
+	}
+	return fmt.Sprintf("%sbc=%s subs=%s close=%s", pre, strings.Join(b, "+"), strings.Join(u, ","), c)
 }
 
 // ---- monitor ----
@@ -92,6 +104,7 @@ type bcRec struct {
 	thread     int
 	called     bool
 	returned   bool
+	retOpen    bool   // returned before Close was called
 	subsBefore []bool // subscribers whose Subscribe had returned when Broadcast was called
 	retBefore  []int  // values whose Broadcast had returned when this one was called
 	afterClose bool   // called after Close had returned
@@ -103,6 +116,7 @@ func mkExec(s scen) *mc.Exec {
 		bcs         []*bcRec
 		byVal       = map[int]*bcRec{}
 		issued      int
+		returned    int
 		closeCalled bool
 		closeRet    bool
 		probeErr    string
@@ -119,7 +133,11 @@ func mkExec(s scen) *mc.Exec {
 		gate := mc.NewChan[struct{}]() // closed when closeAt Broadcast calls have been issued
 		gateOpen := false
 		openGate := func() {
-			if s.closeAt >= 0 && !gateOpen && issued >= s.closeAt {
+			n := issued
+			if s.strict {
+				n = returned
+			}
+			if s.closeAt >= 0 && !gateOpen && n >= s.closeAt {
 				gateOpen = true
 				gate.Close()
 			}
@@ -160,6 +178,9 @@ func mkExec(s scen) *mc.Exec {
 					openGate()
 					b.Broadcast(v)
 					r.returned = true
+					r.retOpen = !closeCalled
+					returned++
+					openGate()
 				}
 			})
 		}
@@ -285,6 +306,16 @@ func mkExec(s scen) *mc.Exec {
 					}
 				}
 			}
+			// (4') strict family: Close "blocks until all events have been sent
+			// to the subscribers": a value whose Broadcast returned before Close
+			// was called reaches every subscriber that was there and never left
+			if s.strict && sr.kind == 'p' {
+				for _, r := range bcs {
+					if r.retOpen && r.subsBefore[i] && !seen[r.val] {
+						return fmt.Errorf("lost at Close: subscriber %d (subscribed before the call, never left) never received %d although Broadcast(%d) had returned before Close was called; %s", i, r.val, r.val, describe())
+					}
+				}
+			}
 		}
 		// (5) one common order extending the order of the Broadcast calls: the
 		// union of every subscriber's successor relation and of "returned
@@ -400,9 +431,13 @@ const (
 	classLeave  = "broadcaster/departing-subscriber"
 	classClose  = "broadcaster/close"
 	classLeaveC = "broadcaster/departing-subscriber-and-close"
+	classStrict = "broadcaster/close-drops-accepted-values"
 )
 
 func classOf(s scen) string {
+	if s.strict {
+		return classStrict
+	}
 	leaving := false
 	for _, x := range s.subs {
 		if x.kind != 'p' {
@@ -488,12 +523,17 @@ func kindIndex(kinds []sub, x sub) int {
 
 func scaledScenarios() []hx.Scenario {
 	var out []hx.Scenario
+	names := map[string]bool{}
 	add := func(s scen, delay bool, min, max int, thoroughOnly bool) {
 		sc := s
 		n := s.name()
 		if !delay {
 			n = "pb " + n
 		}
+		if names[n] {
+			return
+		}
+		names[n] = true
 		out = append(out, hx.Scenario{
 			Name: n, Class: classOf(s), ThoroughOnly: thoroughOnly,
 			Opts: mc.Options{Delay: delay, MinBound: min, Bound: max, MaxSteps: 6000},
@@ -533,6 +573,22 @@ func scaledScenarios() []hx.Scenario {
 						add(s, false, 1, 1, false)
 					}
 				}
+			}
+		}
+	}
+	// strict reading of Close (own finding key): prompt readers only
+	// (the statement's "stays subscribed while the broadcaster is open" read
+	// literally, and Close's doc comment "blocks until all events have been
+	// sent to the subscribers"): Close is released only once 1 / all Broadcast
+	// calls have RETURNED, every subscriber reads for ever and never cancels
+	for _, shape := range [][]int{{1}, {2}, {3}, {1, 1}, {2, 1}} {
+		nv := 0
+		for _, x := range shape {
+			nv += x
+		}
+		for _, ss := range [][]sub{{{kind: 'p'}}, {{kind: 'p'}, {kind: 'p'}}, {{kind: 'p'}, {kind: 'p', late: true}}} {
+			for _, c := range []int{1, nv} {
+				add(scen{bcs: values(shape), subs: ss, closeAt: c, strict: true}, true, 2, 5, nv > 2 || len(ss) > 1)
 			}
 		}
 	}
